@@ -16,11 +16,7 @@ THRESHOLDS = sorted({s * 2 ** k for k in (7, 8, 15, 16, 31, 32, 63, 64) for s in
 
 META = {
     "level": "exploration",
-    "rule": ("(max,min) pairs: every pair from P x P', P={0} u {2^k-1,2^k,2^k+1: k=0..64} and negatives, "
-             "restricted to pairs some NumPy integer dtype holds, plus the one-argument negative form; "
-             "random pairs (thorough); in-situ calls made by to_array/collapsed/IndxIO.save, whose consequences (dense "
-             "output, collapsed output, INDX coordinate words) are checked for wrap-around as well. "
-             "Non-trivial: max or min within 1 of +-2^7,2^8,+-2^15,2^16,+-2^31,2^32,+-2^63,2^64; distinct by (max,min,form)"),
+    "rule": ("(max,min) pairs: every pair from P x P', P={0} u {2^k-1,2^k,2^k+1: k=0..64} and negatives, restricted to pairs some NumPy integer dtype holds, plus the one-argument negative form; random pairs (thorough); in-situ calls made by to_array/collapsed/IndxIO.save, whose consequences (dense output, collapsed output, INDX coordinate words) are checked for wrap-around AND narrowness as well (dense-output dtype against the values written: wide indexes, indexes without entries, fully explicit indexes, mappings not listing the common value; the word-size byte of saved files). Non-trivial: max or min within 1 of +-2^7,2^8,+-2^15,2^16,+-2^31,2^32,+-2^63,2^64; distinct by (max,min,form)"),
     "require": {"quick": ["pairs_partition", "consequence:indx_words_checked",
                           "consequence:collapsed_output_checked", "consequence:to_array_after_in_place_code_change",
                           "consequence:collapsed_over_255..257_columns", "consequence:dense_output_dtype_checked:columns>256",
@@ -31,8 +27,7 @@ META = {
     "exhaustive": {"quick": "threshold partition P x P' of the (max,min) plane (all powers of two +-1, k=0..64)",
                    "thorough": "threshold partition P x P' of the (max,min) plane (all powers of two +-1, k=0..64)"},
     "assumptions": ["numpy.iinfo is the ground truth for what an integer dtype can hold",
-                    "domain: min <= 0 or the legacy one-argument negative form; min <= max; "
-                    "[min,max] inside some NumPy integer dtype"],
+                    "domain: min <= 0 or the legacy one-argument negative form; min <= max; [min,max] inside some NumPy integer dtype"],
 }
 
 
@@ -308,8 +303,7 @@ def dense_output_dtype_case(ctx, case):
     ctx.count("consequence:dense_output_dtype_checked:columns>%d" % (65536 if ncols > 65536 else (256 if ncols > 256 else (128 if ncols > 128 else 0))))
     if exp is not None and out.dtype != exp:
         ctx.violation("insitu:to_array-dtype:%s" % ("too-wide" if out.dtype.itemsize > exp.itemsize else "wrong"),
-                      "to_array() of a %dx%d index with codes %r and common %r chose %s; the narrowest dtype holding the stored "
-                      "values is %s" % (nrows, ncols, sorted(set(stored)), common, out.dtype, exp), case)
+                      "to_array() of a %dx%d index with codes %r and common %r chose %s; the narrowest dtype holding the stored values is %s" % (nrows, ncols, sorted(set(stored)), common, out.dtype, exp), case)
         return
     mp = {int(k): int(v) for k, v in case["mapping"]}
     if not mp:
@@ -325,8 +319,7 @@ def dense_output_dtype_case(ctx, case):
     ctx.count("consequence:mapped_dense_output_dtype_checked" + ("" if idx2.common in mp else ":common_not_in_mapping"))
     if exp2 is not None and out2.dtype != exp2:
         ctx.violation("insitu:to_array(mapping)-dtype:%s" % ("too-wide" if out2.dtype.itemsize > exp2.itemsize else "wrong"),
-                      "to_array(mapping=%r) of an index with codes %r and common %r chose %s; the values written are %r, "
-                      "the narrowest dtype holding them is %s" % (mp, sorted(set(k[0] for k in entries)), idx2.common, out2.dtype,
+                      "to_array(mapping=%r) of an index with codes %r and common %r chose %s; the values written are %r, the narrowest dtype holding them is %s" % (mp, sorted(set(k[0] for k in entries)), idx2.common, out2.dtype,
                                                                  sorted(set(must)), exp2), case)
 
 
@@ -346,8 +339,7 @@ def insitu_one(ctx, rng, i, k, idx, a2, vals, signed, io_):
             got = set(int(v) for v in col.to_array(dtype=numpy.int64).ravel().tolist()) if max(abs(v) for v in vals) < 2 ** 63 else set()
             ctx.count("consequence:collapsed_output_checked")
             if not got <= set(prec):
-                ctx.violation("insitu:collapsed-wrapped", "collapsed(%r) produced values %r that are not in the precedence "
-                              "list: the chosen output dtype wrapped them" % (prec, sorted(got - set(prec))[:4]), {"a": a2, "precedence": prec})
+                ctx.violation("insitu:collapsed-wrapped", "collapsed(%r) produced values %r that are not in the precedence list: the chosen output dtype wrapped them" % (prec, sorted(got - set(prec))[:4]), {"a": a2, "precedence": prec})
             # the same index again after its set of codes has been changed IN PLACE (same number of entries,
             # same common value): the dense output dtype must follow
             if len(idx) >= 1 and i % 2 == 0:
